@@ -77,6 +77,37 @@ def c13_extra(ctx):
         out["coverage"]["config_order_runs"] = 4 * (3 if ctx["tier"] == "thorough" else 2)
     finally:
         shutil.rmtree(root, ignore_errors=True)
+    # (d) the report is a function of the findings of the run: not of what earlier runs left in the working directory
+    history_extra(ctx, out, "history")
+    return out
+
+
+def history_extra(ctx, out, group):
+    """runs over different directories from one working directory (proc.history_cases)"""
+    binary, err = proc.build_binary(ctx)
+    if not binary:
+        out["broken"].append({"what": "correspondence", "name": "solstat binary does not build", "log": err})
+        return
+    root = proc.scratch_root()
+    try:
+        cases = proc.history_cases(binary, root, random.Random(ctx["seed"] * 13 + 5))
+    finally:
+        shutil.rmtree(root, ignore_errors=True)
+    for c in cases:
+        out["evaluations"] += len(c["sequence"]) + 1
+        if c["problems"]:
+            out["violations"].append({"kind": "PROC", "group": group, "why": "; ".join(c["problems"]), "case": c})
+        out["distinct"].append(hashlib.sha1(repr((c["sequence"], c["report_sha1"])).encode()).hexdigest())
+    out["coverage"]["history_sequences"] = [" > ".join(c["sequence"]) for c in cases]
+    out["coverage"]["history_same_length_reports"] = sum(1 for c in cases if c["sequence"][0].startswith("shift") and c["report_bytes"] == c["fresh_report_bytes"])
+    out["samples"] = out.get("samples", []) + cases[:2]
+
+
+def c11_extra(ctx):
+    """process-level part of C11: the report FILE lists the findings of the run and no other entries, whatever was in the
+    working directory before"""
+    out = {"coverage": {}, "violations": [], "broken": [], "evaluations": 0, "samples": [], "distinct": []}
+    history_extra(ctx, out, "history")
     return out
 
 
@@ -153,6 +184,7 @@ def c18_extra(ctx):
     out["coverage"]["modes"] = sorted({c["mode"] for c in cases})
     out["coverage"]["strace_runs"] = sum(1 for c in cases if c["strace"])
     out["samples"] = cases[:3]
+    history_extra(ctx, out, "history")
     return out
 
 
@@ -237,13 +269,14 @@ PROPS = {
                 "divideBeforeMultiply_exact", "hasSenderCheck_eq", "unprotectedSelfdestruct_exact",
                 "unprotectedSelfdestruct_must_not", "unprotectedSelfdestruct_must_partial", "C07_local",
             ],
+            "Solstat.Props.C07b": ["nonExempt_of_check", "no_check_of_all_exempt", "unprotectedSelfdestruct_must", "mustReport_iff"],
             "Solstat.Props.C01": ["C01", "blocked_empty", "kinds_by_name"],
         },
         "obs": [("det", ["--nolines", "unsafe_erc20", "divide_before_multiply", "floating_pragma", "unprotected_selfdestruct"])],
         "kinds": ["DET"],
         "groups": ["unsafeerc20", "dividebeforemultiply", "floatingpragma", "unprotectedselfdestruct"],
         "assumptions": [
-            "unprotected_selfdestruct MUST half is proved for the hypothesis 'no call checks msg.sender' (theorem ..._must_partial); the property's mention-based wording is evaluated by the oracle on every input",
+            "unprotected_selfdestruct MUST half: proved as the property words it (Props/C07b unprotectedSelfdestruct_must: every mention of msg.sender, occurrence by occurrence, lies inside selfdestruct arguments or is the operand of a type conversion => reported); the oracle's mustReport is exactly that hypothesis (mustReport_iff)",
             "depends on C01 through the regenerated walker table",
         ],
     },
@@ -385,6 +418,7 @@ PROPS = {
         },
         "obs": [("render", [])],
         "kinds": ["RENDER", "FULLREPORT"],
+        "extra": c11_extra,
         "foreign_prefix": ("stale",),   # a report file that keeps text of the previous run is C18's violation
         "rule": "a case is one findings map (random subset of patterns, 0-6 files per pattern with names containing spaces, colons, dashes, unicode, the list marker; line sets incl. 0 and 2^31-1) rendered by the real generate_*_report; distinct by SHA-1; non-trivial when at least one entry is listed",
         "assumptions": [
@@ -464,7 +498,7 @@ PROPS = {
             "Solstat.Props.C02": ["lineOf_spec", "analyzeLines_spec"],
         },
         "obs": [("relayout", [])],
-        "kinds": ["TOKMAP", "RELAY", "STRLIT", "LINES"],
+        "kinds": ["TOKMAP", "RELAY", "STRLIT", "LINES", "PRAGMASP"],
         "viol_exclude_prefix": "panic",   # a detector that aborts is C04's violation, not a layout dependence
         "rule": "a case is one (base layout, re-layout, detector): the base layout separates every token by one space; the re-layout inserts random white space, LF/CRLF, line/block/doc comments with code-like text and multi-byte characters between all tokens (pragma directives are copied verbatim: their value is one token); STRLIT cases replace the content of every string literal by code-like text of the same length; distinct by SHA-1 of the request line; non-trivial when the detector flags something in the base layout",
         "assumptions": [
@@ -505,7 +539,7 @@ PROPS = {
             "Solstat.Props.C01": ["C01", "blocked_empty"],
         },
         "obs": [("compose", [])],
-        "kinds": ["COMPOSE"],
+        "kinds": ["COMPOSE", "COMPOSELINES"],
         "viol_exclude_prefix": "panic",   # a detector that aborts is C04's violation, not an interference between items
         "rule": "a case is one (file, detector): the file has >= 2 top-level items; for every item the file is re-parsed with all other non-pragma items blanked (bytes -> spaces, line feeds kept) and the real detector is run on the whole and on every blanked variant; distinct by SHA-1; non-trivial when the whole file has findings",
         "assumptions": [
